@@ -121,7 +121,13 @@ namespace cdsverif {
             o << ( first ? "" : ", " ) << "\"" << kv.first << "\": " << kv.second;
             first = false;
         }
-        o << "},\n \"samples\": [";
+        o << "},\n \"exhaustive_domains\": [";
+        first = true;
+        for ( auto const& s : exhaustive_domains ) {
+            o << ( first ? "" : ", " ) << "\"" << json_escape( s ) << "\"";
+            first = false;
+        }
+        o << "],\n \"samples\": [";
         first = true;
         for ( auto const& s : samples ) {
             o << ( first ? "" : ", " ) << "\"" << json_escape( s ) << "\"";
